@@ -931,6 +931,33 @@ def part_enforcement(ctx, E):
         ctx.count("enforcement:" + outcome)
 
 
+def part_pairwise_acceptance(ctx, E):
+    """'every supported option value is accepted': every PAIR of supported values of two option families (a covering array of ~70 option sets) goes through
+    the dispatcher and the parameters stage without being rejected, for one country that rotates with the seed"""
+    from src.scenarios.run_scenario import ScenarioRunner
+    from src.optimizer.parameters import Parameters
+    from lib import pipeline, lpcheck
+    rng = ctx.rng
+    space = {k: v for k, v in lpcheck.OPTION_SPACE.items()}
+    sets = pipeline.pairwise_sets(space, rng, base=pipeline.BASE_OPTIONS)
+    isos = sorted(E.by_iso)
+    for iso in [rng.choice(isos) for _ in range(ctx.budget(1, 4))]:
+        for o in sets:
+            case = {"country": iso, "options": {k: v for k, v in o.items() if pipeline.BASE_OPTIONS.get(k) != v}}
+            try:
+                with ctx.quiet():
+                    c, tc, sl = ScenarioRunner().set_depending_on_option(dict(o), country_data=E.by_iso[iso])
+                    Parameters().compute_parameters_first_round(c, tc, sl)
+                ctx.count("pairwise-acceptance:accepted")
+            except BaseException as e:  # noqa
+                if isinstance(e, KeyboardInterrupt):
+                    raise
+                ctx.violation("supported-values-rejected", "%s: an option set made of supported values only is rejected (%s: %s): %s" % (
+                    iso, type(e).__name__, str(e)[:120], case["options"]), case)
+            ctx.case(("pairwise", iso, tuple(sorted((k, str(v)) for k, v in case["options"].items()))), nontrivial=True)
+    ctx.extra["pairwise_option_sets"] = len(sets)
+
+
 def correspondence(ctx):
     E = setup(ctx)
     part_sequences(ctx, E)
@@ -938,6 +965,7 @@ def correspondence(ctx):
     part_heads(ctx, E)
     part_full_runs(ctx, E)
     part_enforcement(ctx, E)
+    part_pairwise_acceptance(ctx, E)
 
 
 def search(ctx):
